@@ -99,6 +99,7 @@ func campaignC18(p *Parser, req *Request, resp *Response) {
 				}
 			}
 		}
+		simrt.Solo(1 << 40) // the option constructors are instrumented code: no stale client, no cap
 		p.Prebuild(keys)
 		resp.stat("shared_option_values", len(keys))
 	}
